@@ -681,7 +681,13 @@ fn process_request_obj(request: &Request, dbs: &Arc<Databases>, client: &mut Cli
                     &PermissionKind::Read,
                 );
             } else {
-                apply_to_database(&dbs, &client, &|db| {
+                // A resolve writes the key: it needs the same access a set needs (no $$ keys for
+                // non admins, write permission for user sessions), a refusal must not be replicated
+                let result = apply_if_safe_access(
+                    &dbs,
+                    &client,
+                    &key,
+                    &|db| {
                     if dbs.is_primary() {
                         db.resolve_conflit(
                             Change {
@@ -706,7 +712,12 @@ fn process_request_obj(request: &Request, dbs: &Arc<Databases>, client: &mut Cli
                         );
                         Response::Ok {}
                     }
-                });
+                    },
+                    PermissionKind::Write,
+                );
+                if let Response::Error { msg: _ } = result {
+                    return result;
+                }
             };
             return Response::Ok {};
         }
